@@ -10,6 +10,7 @@ import Driver.OpsLoD
 import Driver.OpsObs
 import Driver.OpsFS
 import Driver.OpsBind
+import Driver.OpsAgg
 
 open Lean DI DI.Codec
 
@@ -30,6 +31,9 @@ def dispatch (op : String) (a : Json) : Except String Json :=
   | some r => r
   | none =>
   match DI.Ops.bindOp op a with
+  | some r => r
+  | none =>
+  match DI.Ops.aggOp op a with
   | some r => r
   | none => .error s!"unknown op {op}"
 
